@@ -49,13 +49,17 @@ def strategy(tier):
             st.tuples(st.just('push')).map(list), st.tuples(st.just('pop'), st.booleans()).map(list),
             st.tuples(st.just('pack'), st.integers(0, 12), st.sampled_from([None, None, 0])).map(list),
             st.tuples(st.just('clock'), st.sampled_from(['stall', 'back']), st.integers(1, 50)).map(list),
-            st.tuples(st.just('alloc'), st.integers(1, 3)).map(list))
+            st.tuples(st.just('alloc'), st.integers(1, 3)).map(list),
+            st.tuples(st.just('alloc_in_txn'), st.integers(1, 3)).map(list))
         return st.fixed_dictionaries({
             'base': st.just(base_kind), 'changes': st.just(changes),
             'base_prog': programs.program_strategy(base_kind, n, ballow),
             'demo_prog': st.lists(demo_step, min_size=1, max_size=n + 3),
             'rand': st.lists(st.integers(1, 12), min_size=1, max_size=8),
             'allow_known': st.just(False),
+            # the id generator comes round: the base owns the id right behind the first id the demo storage draws,
+            # and its next draw is that first id again
+            'collide': st.sampled_from([False, False, False, True]),
         })
     plain = st.sampled_from(CONFIGS).flatmap(build)
     return st.one_of(plain, plain, plain, blob_strategy(n))
@@ -353,6 +357,24 @@ def execute(case):
     if out.failures:
         br.close()
         return out
+    rand_vals = list(case['rand'])
+    demo_prog = list(case['demo_prog'])
+    if case.get('collide'):
+        # one more base object G with free ids below it; the demo storage's random draws are G-1, G-1, ...
+        from ZODB.utils import u64 as _u64
+        if case['base'] == 'fs':
+            br.storage.set_max_oid(p64(_u64(br.storage._oid) + 3))
+        else:
+            br.storage._oid += 3
+        br.do_txn([0, 0, 0], [['new', 1]], ['finish'])
+        clock.CLOCK.advance(1)
+        if out.failures:
+            br.close()
+            return out
+        g = max(_u64(o) for o in br.model.oids())
+        rand_vals = [g - 1, g - 1] + rand_vals
+        demo_prog = [['alloc_in_txn', 2]] + demo_prog
+        out.label('id-generator-comes-round')
     base = br.storage
     base_model = br.model
     base_battery = Battery(programs.CAPS[case['base']])
@@ -365,7 +387,7 @@ def execute(case):
             return hashlib.sha1(f.read()).hexdigest()
     h0 = base_hash()
     real_random = ZODB.DemoStorage.random
-    ZODB.DemoStorage.random = RandStream(case['rand'])
+    ZODB.DemoStorage.random = RandStream(rand_vals)
     cdir = os.path.join(d, 'changes')
     os.mkdir(cdir)
     nfs = [0]
@@ -398,13 +420,18 @@ def execute(case):
     known_region = False
     try:
         clock.CLOCK.advance(2)
-        for op in case['demo_prog']:
+        for op in demo_prog:
             k = op[0]
             cur = r.storage
             if k == 'txn':
                 ntx = len(r.model.txns)
                 # exclusion of the known-finding region (F14) by construction
                 in_known = False
+                if case.get('collide') and any(x[0] == 'undo' for x in op[2]):
+                    # with the id generator coming round, un-created objects' ids are drawn again: the open known
+                    # finding 'id-of-uncreated-object' (then stores conflict) - excluded by construction here
+                    out.excluded += 1
+                    continue
                 if packed and any(x[0] == 'undo' for x in op[2]):
                     # after a pack the history model no longer predicts which transactions can be undone
                     # (status p, re-linked back-pointers): pack + undo is C07's subject
@@ -476,6 +503,39 @@ def execute(case):
                 clock.CLOCK.advance(1)
             elif k == 'clock':
                 r.step(op)
+            elif k == 'alloc_in_txn':
+                # ids handed out while a transaction that has stored a NEW object is between store and finish:
+                # that object's id is issued, not yet in a layer - and not free
+                drawn = []
+                real_new_oid = cur.new_oid
+
+                def recording_new_oid():
+                    drawn.append(real_new_oid())
+                    return drawn[-1]
+                cur.new_oid = recording_new_oid
+
+                def probe(runner, t, phase, n=op[1]):
+                    if phase != 'stored':
+                        return
+                    mine = set(drawn)       # ids the transaction itself drew for its new objects
+                    for _ in range(n):
+                        oid = real_new_oid()
+                        out.evals += 1
+                        if oid in mine:
+                            out.fail((PROPERTY, 'new_oid', 'issued-twice-inside-transaction'),
+                                     'new_oid returned %d, the id of a new object that the transaction in progress has stored' % u64(oid))
+                r.probe = probe
+                try:
+                    ntx = len(r.model.txns)
+                    r.do_txn([0, 0, 0], [['new', 1]], ['finish'])
+                finally:
+                    r.probe = None
+                    del cur.new_oid
+                clock.CLOCK.advance(1)
+                for t in r.model.txns[ntx:]:
+                    r.change_tids.add(t.tid)
+                    layer_tids[-1].add(t.tid)
+                out.label('alloc-inside-transaction')
             elif k == 'alloc':
                 present = r.model.oids()
                 for _ in range(op[1]):
